@@ -602,6 +602,35 @@ func TestVerif_Throttle(t *testing.T) {
 			}
 		})
 	}
+	// Part 1b: budgets of more than 2^31 (and 2^32) frames - a bucket-size of years on a fast
+	// camera. Nothing is cut or suppressed while a tiny part of such a budget is used, on any
+	// word size; the products of seconds and fps are chosen to land just above a power of two.
+	for k, hc := range []thConfig{
+		{BucketSecs: 71582789, Refill: time.Hour, MinSecs: 2, FPS: 60},   // 4294967340 frames = 2^32 + 44
+		{BucketSecs: 35791395, Refill: time.Hour, MinSecs: 2, FPS: 60},   // 2147483700 frames = 2^31 + 52
+		{BucketSecs: 477218589, Refill: time.Hour, MinSecs: 2, FPS: 9},   // 4294967301 frames = 2^32 + 5
+		{BucketSecs: 159072863, Refill: time.Hour, MinSecs: 15, FPS: 27}, // 4294967301 frames
+	} {
+		myIdx := idx + 5000000 + int64(k)
+		if !c.Mine(myIdx) {
+			continue
+		}
+		hc := hc
+		ops := []callerOp{}
+		for rec := 0; rec < 4; rec++ {
+			ops = append(ops, callerOp{'S', time.Second})
+			for w := 0; w < 150+60*rec; w++ {
+				ops = append(ops, callerOp{'W', time.Second / time.Duration(hc.FPS)})
+			}
+			ops = append(ops, callerOp{'P', 0})
+		}
+		c.Case(myIdx, func() interface{} {
+			return map[string]interface{}{"config": hc.String(), "schedule": "4 recordings of 150..330 frames"}
+		}, func() {
+			runSchedule(c, prop, hc, ops, nil, "budget beyond 2^31 frames")
+			c.Count("schedules_with_budgets_beyond_2^31_frames", 1)
+		})
+	}
 	// Part 2: wrapped start failing at every call index (schedules with <= 12 base starts)
 	ns := c.N(400, 40000)
 	for s := int64(0); s < ns; s++ {
